@@ -5,8 +5,11 @@ import (
 	"context"
 	"encoding/json"
 	"fmt"
+	"io"
+	"oras.land/oras-go/v2/content"
 	"os"
 	"path/filepath"
+	"strings"
 
 	"github.com/opencontainers/go-digest"
 	"github.com/opencontainers/image-spec/specs-go"
@@ -114,4 +117,58 @@ func must(err error) {
 	if err != nil {
 		panic(err)
 	}
+}
+
+// A reader that is itself a content.VerifyReader for the same descriptor and has already been read
+// from (the caller peeked at the first k bytes, or read and verified everything): what is left is an
+// early-ending stream, so Push must fail and nothing may become visible; with k = 0 the push is an
+// ordinary good one.
+func vreaderJob() driver.Job {
+	return driver.Job{Name: "vreader/pre-consumed", Run: func(c *driver.Ctx) {
+		for _, p := range pushTargets() {
+			if strings.Contains(p.name, "unpack") || strings.Contains(p.name, "Limited") {
+				continue
+			}
+			for _, data := range [][]byte{[]byte("a"), {'a', 0}, []byte("aa\x00")} {
+				for k := 0; k <= len(data)+1; k++ {
+					ks := &kase{s: data, d: dspec{dname: "right", sname: "right", digest: "sha256:" + hexOf("sha256", data), alg: "sha256", hexv: hexOf("sha256", data), size: int64(len(data))}}
+					ps := p.mk(ks)
+					desc := ps.desc
+					vr := content.NewVerifyReader(bytes.NewReader(data), desc)
+					n := k
+					verified := false
+					if k > len(data) {
+						n, verified = len(data), true
+					}
+					if _, err := io.ReadFull(vr, make([]byte, n)); err != nil {
+						panic(err)
+					}
+					if verified {
+						if err := vr.Verify(); err != nil {
+							panic(err)
+						}
+					}
+					err := ps.st.Push(ctx, desc, vr)
+					v := probe(ps.st, desc)
+					c.Evals++
+					c.Nontriv(driver.Hash("vreader", p.name, string(data), fmt.Sprint(k)))
+					what := fmt.Sprintf("content %q pushed through a content.VerifyReader of which %d bytes had been read before (verified before: %v)\nPush err=%v; %s", data, n, verified, err, v)
+					var f *fail
+					switch {
+					case n == 0 && err == nil && (v.fetchErr != nil || !bytes.Equal(v.bytes, data)):
+						f = failf(p.name+": Fetch after a successful Push hands back bytes that are not the named content", "%s", what)
+					case n > 0 && err == nil:
+						f = failf(p.name+".Push: succeeded although the reader had fewer than Size bytes left (a partly consumed VerifyReader)", "%s", what)
+					case n > 0 && v.visible():
+						f = failf(p.name+".Push: failed push left the content visible", "%s", what)
+					}
+					ps.cleanup()
+					if f != nil {
+						c.AddViolation(driver.Violation{Tier: c.Tier, Job: c.Job, Scenario: "vreader", Sig: f.sig, Detail: f.detail})
+						return
+					}
+				}
+			}
+		}
+	}}
 }
